@@ -63,13 +63,25 @@ pub fn gid_map(font: &Font) -> Result<BTreeMap<String, u16>, String> {
     Ok(font.glyph_names()?.into_iter().enumerate().map(|(i, n)| (n, i as u16)).collect())
 }
 
-pub fn check_outlines(ctx: &Ctx, genome: &[u16]) -> CaseReport {
+pub fn check_outlines(ctx: &Ctx, genome: &[u16]) -> CaseReport { check_outlines_route(ctx, genome, false) }
+/// the same property through the Glyphs front end: the model written as Glyphs 3 text (one layer per master,
+/// intermediate layers with full or partial coordinates)
+pub fn check_outlines_glyphs(ctx: &Ctx, genome: &[u16]) -> CaseReport { check_outlines_route(ctx, genome, true) }
+
+fn check_outlines_route(ctx: &Ctx, genome: &[u16], glyphs_route: bool) -> CaseReport {
     let mut rep = CaseReport::default();
-    let f = SynthFont::decode(genome, &Profile { point_axis: true, ..Profile::outlines() });
+    let mut f = SynthFont::decode(genome, &if glyphs_route { Profile { point_axis: false, vertical: false, maps: false, min_axes: 1, ..Profile::outlines() } } else { Profile { point_axis: true, ..Profile::outlines() } });
+    let mut glyphs_text = None;
+    if glyphs_route {
+        let tail = &genome[genome.len().saturating_sub(12)..genome.len().saturating_sub(2)];
+        let partial = crate::synth::glyphs::prepare(&mut f, &mut crate::genome::Gen::new(tail));
+        if partial.is_some() { rep.class("intermediate-layer-with-partial-coordinates"); }
+        glyphs_text = Some(crate::synth::glyphs::render(&f, partial));
+    }
     rep.key = f.hash();
     classify(&mut rep, &f);
     rep.sample = Some(describe(&f));
-    if ctx.dry { for (k, v) in ufo::render(&f) { rep.artifacts.push((k, v.into_bytes())); } return rep; }
+    if ctx.dry { match &glyphs_text { Some(t) => rep.artifacts.push(("font.glyphs".into(), t.clone().into_bytes())), None => { for (k, v) in ufo::render(&f) { rep.artifacts.push((k, v.into_bytes())); } } } return rep; }
     let mut g = crate::genome::Gen::new(genome);
     let w0 = g.word(); // reuses the first word: options, not model choices
     let keep_direction = w0 % 5 == 0;
@@ -80,7 +92,13 @@ pub fn check_outlines(ctx: &Ctx, genome: &[u16]) -> CaseReport {
     if flatten { rep.class("flatten-components"); }
     if decompose { rep.class("decompose-components"); }
     if f.upem == 4096 { rep.class("upem-4096"); }
-    let Some(b) = build(ctx, &mut rep, f, &opts) else { return rep };
+    let b = match glyphs_text {
+        None => { let Some(b) = build(ctx, &mut rep, f, &opts) else { return rep }; b }
+        Some(text) => match crate::props::c20::compile_glyphs_text(&text, &opts) {
+            Ok(bytes) => Built { font: f, bytes, files: [("font.glyphs".to_string(), text)].into_iter().collect() },
+            Err(e) => { rep.fail(format!("valid-source-rejected:{}", crate::run::normalize_sig(e.text().split(['\'', '"', ':']).next().unwrap_or(""))), format!("fontc failed on a generated (valid) Glyphs source: {}", e.text())); rep.artifacts.push(("font.glyphs".into(), text.into_bytes())); return rep; }
+        },
+    };
     let f = &b.font;
     let font = match Font::new(&b.bytes) { Ok(x) => x, Err(e) => { rep.fail("output-unparseable", e); attach_source(&mut rep, &b); return rep; } };
     let gids = match gid_map(&font) { Ok(m) => m, Err(e) => { rep.fail("post-names-unreadable", e); attach_source(&mut rep, &b); return rep; } };
@@ -178,14 +196,30 @@ fn table_value(font: &Font, which: &str) -> Option<f64> {
     })
 }
 
-pub fn check_metrics(ctx: &Ctx, genome: &[u16]) -> CaseReport {
+pub fn check_metrics(ctx: &Ctx, genome: &[u16]) -> CaseReport { check_metrics_route(ctx, genome, false) }
+/// advances (hmtx + HVAR, gvar phantom points) through the Glyphs front end; the global-metric part needs UFO fontinfo keys and stays with the UFO route
+pub fn check_metrics_glyphs(ctx: &Ctx, genome: &[u16]) -> CaseReport { check_metrics_route(ctx, genome, true) }
+
+fn check_metrics_route(ctx: &Ctx, genome: &[u16], glyphs_route: bool) -> CaseReport {
     let mut rep = CaseReport::default();
-    let f = SynthFont::decode(genome, &Profile { point_axis: true, ..Profile::outlines() });
+    let mut f = SynthFont::decode(genome, &if glyphs_route { Profile { point_axis: false, vertical: false, maps: false, min_axes: 1, metrics_class_a: false, ..Profile::outlines() } } else { Profile { point_axis: true, ..Profile::outlines() } });
+    let mut glyphs_text = None;
+    if glyphs_route {
+        let tail = &genome[genome.len().saturating_sub(12)..genome.len().saturating_sub(2)];
+        let partial = crate::synth::glyphs::prepare(&mut f, &mut crate::genome::Gen::new(tail));
+        glyphs_text = Some(crate::synth::glyphs::render(&f, partial));
+    }
     rep.key = f.hash();
     classify(&mut rep, &f);
     rep.sample = Some(describe(&f));
-    if ctx.dry { for (k, v) in ufo::render(&f) { rep.artifacts.push((k, v.into_bytes())); } return rep; }
-    let Some(b) = build(ctx, &mut rep, f, &BuildOpts::default()) else { return rep };
+    if ctx.dry { match &glyphs_text { Some(t) => rep.artifacts.push(("font.glyphs".into(), t.clone().into_bytes())), None => { for (k, v) in ufo::render(&f) { rep.artifacts.push((k, v.into_bytes())); } } } return rep; }
+    let b = match glyphs_text {
+        None => { let Some(b) = build(ctx, &mut rep, f, &BuildOpts::default()) else { return rep }; b }
+        Some(text) => match crate::props::c20::compile_glyphs_text(&text, &BuildOpts::default()) {
+            Ok(bytes) => Built { font: f, bytes, files: [("font.glyphs".to_string(), text)].into_iter().collect() },
+            Err(e) => { rep.fail(format!("valid-source-rejected:{}", crate::run::normalize_sig(e.text().split(['\'', '"', ':']).next().unwrap_or(""))), format!("fontc failed on a generated (valid) Glyphs source: {}", e.text())); rep.artifacts.push(("font.glyphs".into(), text.into_bytes())); return rep; }
+        },
+    };
     let f = &b.font;
     let font = match Font::new(&b.bytes) { Ok(x) => x, Err(e) => { rep.fail("output-unparseable", e); attach_source(&mut rep, &b); return rep; } };
     let gids = match gid_map(&font) { Ok(m) => m, Err(e) => { rep.fail("post-names-unreadable", e); attach_source(&mut rep, &b); return rep; } };
@@ -195,6 +229,9 @@ pub fn check_metrics(ctx: &Ctx, genome: &[u16]) -> CaseReport {
     let mut varies = false;
     for gl in &f.glyphs {
         if !gl.export { continue; }
+        // the Glyphs front end zeroes the advance of glyphs its glyph data calls non-spacing marks (a documented
+        // Glyphs convention, not something the source model states): those glyphs are left to the UFO route
+        if glyphs_route && crate::synth::model::is_mark_name(&gl.name) { rep.class("skipped-nonspacing-mark-advance"); continue; }
         let Some(&gid) = gids.get(&gl.name) else { rep.fail("exported-glyph-missing", gl.name.clone()); continue; };
         let Ok(raw) = font.glyph(gid) else { continue };
         let Ok((adv0, _)) = font.advance(gid) else { rep.fail("hmtx-unreadable", gl.name.clone()); continue; };
@@ -242,6 +279,7 @@ pub fn check_metrics(ctx: &Ctx, genome: &[u16]) -> CaseReport {
         }
     }
     // global metrics through MVAR (class A: the metric is explicit in every master)
+    if glyphs_route { rep.nontrivial = varies; attach_source(&mut rep, &b); return rep; }
     let class_a = f.sources[0].info.metrics.contains_key("openTypeOS2TypoAscender");
     if class_a { rep.class("metrics-explicit-in-all-masters"); }
     for (key, tag, field) in MVAR_TAGS {
@@ -268,12 +306,18 @@ pub fn check_metrics(ctx: &Ctx, genome: &[u16]) -> CaseReport {
 }
 
 pub fn parts_c03() -> Vec<Part> {
-    vec![Part { name: "outlines", genome_len: 1400, cases_quick: 1000, cases_thorough: 12000, threads: 12, max_shrink_iters: 250, check: Box::new(check_outlines), remote: None }]
+    vec![
+        Part { name: "outlines", genome_len: 1400, cases_quick: 1000, cases_thorough: 12000, threads: 12, max_shrink_iters: 250, check: Box::new(check_outlines), remote: None },
+        Part { name: "outlines-glyphs", genome_len: 1400, cases_quick: 500, cases_thorough: 6000, threads: 12, max_shrink_iters: 250, check: Box::new(check_outlines_glyphs), remote: None },
+    ]
 }
 pub fn parts_c04() -> Vec<Part> {
-    vec![Part { name: "metrics", genome_len: 1400, cases_quick: 1000, cases_thorough: 12000, threads: 12, max_shrink_iters: 250, check: Box::new(check_metrics), remote: None }]
+    vec![
+        Part { name: "metrics", genome_len: 1400, cases_quick: 1000, cases_thorough: 12000, threads: 12, max_shrink_iters: 250, check: Box::new(check_metrics), remote: None },
+        Part { name: "advances-glyphs", genome_len: 1400, cases_quick: 500, cases_thorough: 6000, threads: 12, max_shrink_iters: 250, check: Box::new(check_metrics_glyphs), remote: None },
+    ]
 }
 
-pub const RULE_C03: &str = "genome -> SynthFont (1-3 axes, default + axis extremes + up to 5 intermediate/corner/interior masters, optional glyph-only layer sources and sparse glyphs; line / quadratic (1 or 2 off-curves per segment) / cubic outlines with per-master jitter and scaling; nested, transformed, mixed and non-export components) written as designspace+UFO3 and compiled in-process; every exported glyph is instantiated at each of its own source locations with an independent gvar evaluator (tuple scalars + IUP) and compared with the model drawing. non-trivial = some glyph has a non-default source whose resolved drawing differs from the default; distinct = hash of the model";
-pub const RULE_C04: &str = "same fonts as C03; per glyph x source location: hmtx+HVAR (own ItemVariationStore evaluator) vs rounded source advance (<=1), vs gvar phantom points (<=1), vmtx+VVAR when vertical metrics are built; per MVAR-tagged metric x master: table value + MVAR delta vs rounded fontinfo value (<=1), exact at default. non-trivial = an advance or a metric differs between masters";
+pub const RULE_C03: &str = "two routes: designspace+UFO3, and (part outlines-glyphs) the same kind of model written as Glyphs 3 text with one layer per master and intermediate layers given by full or partial coordinates. genome -> SynthFont (1-3 axes, default + axis extremes + up to 5 intermediate/corner/interior masters, optional glyph-only layer sources and sparse glyphs; line / quadratic (1 or 2 off-curves per segment) / cubic outlines with per-master jitter and scaling; nested, transformed, mixed and non-export components) written as designspace+UFO3 and compiled in-process; every exported glyph is instantiated at each of its own source locations with an independent gvar evaluator (tuple scalars + IUP) and compared with the model drawing. non-trivial = some glyph has a non-default source whose resolved drawing differs from the default; distinct = hash of the model";
+pub const RULE_C04: &str = "same fonts as C03 (part advances-glyphs: the advance checks through the Glyphs 3 route); per glyph x source location: hmtx+HVAR (own ItemVariationStore evaluator) vs rounded source advance (<=1), vs gvar phantom points (<=1), vmtx+VVAR when vertical metrics are built; per MVAR-tagged metric x master: table value + MVAR delta vs rounded fontinfo value (<=1), exact at default. non-trivial = an advance or a metric differs between masters";
 pub const ASSUMPTIONS: &[&str] = &["master locations and region peaks are dyadic so F2Dot14 quantisation is exact", "composites kept as composites are compared with 3 units per nesting level of slack (base points are rounded before the 2x2 is applied); decomposed glyphs and simple glyphs use the bound of the statement", "cubic sources are compared by sampled Hausdorff distance with upem/1000 (cu2qu tolerance) + 1.5 sampling slack", "glyphs whose components lack a source at the location are compared by component offsets only"];
